@@ -10,6 +10,7 @@ from .. import shims  # noqa: F401  (must precede any cloudsync import)
 from cloudsync.sync.state import SyncState, SyncEntry, Exists
 from cloudsync.types import OType, IgnoreReason, LOCAL, REMOTE, DIRECTORY, FILE
 from cloudsync.providers.mock import MockProvider
+from cloudsync import exceptions as ex
 
 from ..core import ok, violation, invalid
 from ..engine import DictStorage
@@ -98,8 +99,14 @@ def gen(d, tier):
             exists = d.choice((True, True, False, None))
             if styles[side] == "path":
                 path = d.choice(PATHS)
-                prior = d.choice(PATHS) if d.chance(1, 3) else None
-                acts.append(["event", side, otype, path, path, d.choice(HASHES) if otype == "file" else None, exists, prior])
+                prior = d.choice(PATHS) if d.chance(2, 5) else None
+                ev = ["event", side, otype, path, path, d.choice(HASHES) if otype == "file" else None, exists, prior]
+                if prior is not None and d.chance(1, 2):
+                    # the provider fails (temporary error) on the k-th lookup the state makes while it applies this
+                    # event (re-keying the children of a renamed folder): the event manager backs off and retries
+                    # later; the index must be intact in between
+                    ev.append(d.int(0, 1))
+                acts.append(ev)
             else:
                 oid = d.choice(IDS)
                 path = d.choice(PATHS) if d.chance(2, 3) else None
@@ -132,6 +139,19 @@ def gen(d, tier):
     return {"cfg": {"styles": list(styles)}, "acts": acts}
 
 
+class _FaultyMock(MockProvider):
+    """info_path raises CloudTemporaryError on the (fail_in+1)-th call after fail_in was set"""
+    fail_in = None
+
+    def info_path(self, path, use_cache=True):
+        if self.fail_in is not None:
+            if self.fail_in <= 0:
+                self.fail_in = None
+                raise ex.CloudTemporaryError("scripted lookup failure")
+            self.fail_in -= 1
+        return super().info_path(path, use_cache)
+
+
 def _entries(state):
     out = set()
     for side in (0, 1):
@@ -143,11 +163,11 @@ def _entries(state):
 def run(trace):
     shims.reset(0)
     styles = trace["cfg"]["styles"]
-    provs = (MockProvider(styles[0] == "path", True), MockProvider(styles[1] == "path", True))
+    provs = (_FaultyMock(styles[0] == "path", True), _FaultyMock(styles[1] == "path", True))
     for p_ in provs:
         p_.connect({"key": "val"})
     state = SyncState(provs, DictStorage(), tag="T")
-    flags = {"reuse": False, "splitmerge": False, "abandon_with_copy": False}
+    flags = {"reuse": False, "splitmerge": False, "abandon_with_copy": False, "fault_in_update": False}
     seen_oid = [set(), set()]
     seen_path = [set(), set()]
     hazard_skips = 0
@@ -160,7 +180,8 @@ def run(trace):
         ents = _entries(state)
         try:
             if k == "event":
-                _, side, otype, oid, path, h, exists, prior = a
+                _, side, otype, oid, path, h, exists, prior = a[:8]
+                fail_in = a[8] if len(a) > 8 else None
                 ent0 = state.lookup_oid(side, oid)
                 if "KF-16" not in off and _dir_under_own_old_path(state, side, ent0, path, prior):
                     hazard_skips += 1
@@ -172,7 +193,13 @@ def run(trace):
                 seen_oid[side].add(oid)
                 if path:
                     seen_path[side].add(path)
-                state.update(side, OType(otype), oid, path=path, hash=h, exists=exists, prior_oid=prior)
+                provs[side].fail_in = fail_in
+                try:
+                    state.update(side, OType(otype), oid, path=path, hash=h, exists=exists, prior_oid=prior)
+                except ex.CloudTemporaryError:
+                    flags["fault_in_update"] = True      # scripted provider fault: legitimate, integrity is checked below
+                finally:
+                    provs[side].fail_in = None
             elif k == "split":
                 if not ents:
                     continue
